@@ -200,7 +200,7 @@ fn c15_q_cal_contains_count_3() {
 /// Same on every reachable state of 2 stored years.
 #[kani::proof]
 #[kani::unwind(14)]
-fn c15_q_cal_contains_count_2() {
+fn c15_t_cal_contains_count_2() {
     contains_count::<2>()
 }
 
@@ -338,7 +338,7 @@ fn c15_q_cal_insert_3() {
 /// Same from every reachable state of 2 stored years.
 #[kani::proof]
 #[kani::unwind(14)]
-fn c15_q_cal_insert_2() {
+fn c15_t_cal_insert_2() {
     insert::<2>()
 }
 
